@@ -317,7 +317,7 @@ def live(ctx, rng, n):
                 finally:
                     s.close()
                 ctx.count('live:connection-reset')
-                for _ in range(200):
+                for _ in range(1000):
                     if sim.connections() <= 1:
                         break
                     time.sleep(0.01)
@@ -399,7 +399,7 @@ def live(ctx, rng, n):
             if fr is None or fr['status'] != 0 or rc.dec_reply(fr['cip'])['read_tag']['data'] != known:
                 ctx.violation('other-session-disturbed-by-hostile-input', 'live: fresh session after a %s input got a wrong answer' % label, wit)
                 return
-            for _ in range(100):
+            for _ in range(1000):       # 10 s: a watchdog for "never", not a performance requirement
                 if sim.connections() <= 1:
                     break
                 time.sleep(0.01)
